@@ -812,6 +812,10 @@ fn do_event(run: &mut Run, slots: &mut [Option<Slot>], ti: usize, step: i64, ev:
                 check_model(run, kind, exps, pre, post, &val, step, op, &est_candidates);
             }
             check_c01(run, h, post, step, op);
+            if op.code == Code::Purge && !post.lists.iter().all(|l| l.ents.is_empty()) {
+                let d = format!("purge left entries behind: {}", post.show());
+                run.viol("C04", "purge_retains", step, op, d);
+            }
             check_c02_event(run, slots, ti, pre, post, &val, step, op);
             check_c12(run, pre, post, &val, step, op);
             if op.is_read_only() {
@@ -1000,7 +1004,14 @@ fn check_c01(run: &mut Run, _h: &Header, a: &Alpha, step: i64, op: &Op) {
     let bounds: Vec<usize> = match k {
         Kind::Lru => vec![sc[0] as usize],
         Kind::Slru => vec![sc[0] as usize, sc[1] as usize],
-        Kind::TwoQ => vec![sc[0] as usize, sc[0] as usize, sc[2] as usize],
+        Kind::TwoQ => {
+            // the *configured* ghost bound: floor(size x ghost ratio)
+            let g = match _h.ratios.get(1) {
+                Some(gr) if _h.kind == Kind::TwoQ => ((_h.sizes[0] as f64) * gr).floor() as usize,
+                _ => sc[2] as usize,
+            };
+            vec![sc[0] as usize, sc[0] as usize, g]
+        }
         Kind::Arc => vec![sc[0] as usize; 4],
         Kind::Wtlfu => vec![sc[0] as usize, sc[1] as usize, sc[2] as usize],
         _ => vec![],
